@@ -20,32 +20,11 @@ PROP_EXPLANATION["C16"] = (
 )
 
 
-@rule("R16.1", "C16", "non-interference: code_format is read only where the text is laid out; the instruction sequence and the attributes do not depend on it", min_instances=4)
-def r16_1(ctx):
+def phase_separation(ctx):
+    """the attribute flags are settled while the tree is transformed; the emission phase (whose work differs between the
+    layouts: what is printed, how often, in which order) never touches them"""
     idx = get_index(ctx.env)
-    readers = set()
-    for fi in idx.funcs.values():
-        for n in ast.walk(fi.node):
-            if isinstance(n, ast.Attribute) and n.attr == "code_format" and isinstance(n.ctx, ast.Load):
-                readers.add(fi.qual)
-            if isinstance(n, ast.Constant) and n.value == "code_format":
-                readers.add(fi.qual)  # getattr(x, "code_format") and friends
-    exp = {"RZILTransformer.fbody", "RZILTransformer.emit_final_seq_return", "Compiler.set_il_op_transformer"}
-    ctx.check("readers of code_format", readers == exp, str(sorted(exp)), str(sorted(readers)), "rzilcompiler/Transformer/RZILTransformer.py")
-    names = {n.id for fi in idx.funcs.values() for n in ast.walk(fi.node) if isinstance(n, ast.Name) and n.id == "CodeFormat" and fi.qual not in exp | {"Compiler.__init__", "RZILTransformer.__init__"}}
-    ctx.check("no other function refers to CodeFormat", not names, "none", str(sorted(names)), "rzilcompiler/")
-    fe = idx.func("RZILTransformer.emit_final_seq_return")
-    seqs = [n for n in ast.walk(fe.node) if isinstance(n, ast.Call) and call_name(n) == "Sequence"]
-    before_fmt = True
-    first_fmt_line = min([n.lineno for n in ast.walk(fe.node) if isinstance(n, ast.Attribute) and n.attr == "code_format"] or [10**9])
-    ctx.check("one instruction sequence for both layouts, built before the layout is consulted", len(seqs) == 1 and seqs[0].lineno < first_fmt_line, "single Sequence(...) above the first use of code_format", f"{len(seqs)} constructions; layout first read at line {first_fmt_line}", fn_where(idx, fe))
-    from .c11 import final_return_checks
-
-    final_return_checks(ctx)
     gm = idx.func("HexagonTransformerExtension.get_meta")
-    ctx.check("attributes do not depend on the layout", "code_format" not in U(gm.node) and "transformer" not in U(gm.node), "get_meta reads only its own flags", "reads transformer state", fn_where(idx, gm))
-    # phase separation: the attribute flags are settled while the tree is transformed; the emission phase (whose work
-    # differs between the layouts: what is printed, how often, in which order) never touches them
     flags = {n.attr for n in ast.walk(gm.node) if isinstance(n, ast.Attribute) and isinstance(n.value, ast.Name) and n.value.id == "self" and isinstance(n.ctx, ast.Load)}
     ext_classes = [c for c in idx.mro("HexagonTransformerExtension") if c in idx.classes]
     setters = set()
@@ -90,6 +69,33 @@ def r16_1(ctx):
         if isinstance(n, (ast.For, ast.While)) and n.lineno < 10**9 and any(isinstance(c, ast.Call) and isinstance(c.func, ast.Attribute) and c.func.attr in setters for c in ast.walk(n)):
             offenders.append(f"RZILTransformer.fbody:{n.lineno} flags set inside a loop over emitted operations")
     ctx.check("attribute flags are never set from the emission phase", not offenders, f"no call of {sorted(setters)[:4]}... at or after the first emit_* call", "; ".join(sorted(set(offenders))[:3]) or "ok", fn_where(idx, fb))
+
+
+@rule("R16.1", "C16", "non-interference: code_format is read only where the text is laid out; the instruction sequence and the attributes do not depend on it", min_instances=4)
+def r16_1(ctx):
+    idx = get_index(ctx.env)
+    readers = set()
+    for fi in idx.funcs.values():
+        for n in ast.walk(fi.node):
+            if isinstance(n, ast.Attribute) and n.attr == "code_format" and isinstance(n.ctx, ast.Load):
+                readers.add(fi.qual)
+            if isinstance(n, ast.Constant) and n.value == "code_format":
+                readers.add(fi.qual)  # getattr(x, "code_format") and friends
+    exp = {"RZILTransformer.fbody", "RZILTransformer.emit_final_seq_return", "Compiler.set_il_op_transformer"}
+    ctx.check("readers of code_format", readers == exp, str(sorted(exp)), str(sorted(readers)), "rzilcompiler/Transformer/RZILTransformer.py")
+    names = {n.id for fi in idx.funcs.values() for n in ast.walk(fi.node) if isinstance(n, ast.Name) and n.id == "CodeFormat" and fi.qual not in exp | {"Compiler.__init__", "RZILTransformer.__init__"}}
+    ctx.check("no other function refers to CodeFormat", not names, "none", str(sorted(names)), "rzilcompiler/")
+    fe = idx.func("RZILTransformer.emit_final_seq_return")
+    seqs = [n for n in ast.walk(fe.node) if isinstance(n, ast.Call) and call_name(n) == "Sequence"]
+    before_fmt = True
+    first_fmt_line = min([n.lineno for n in ast.walk(fe.node) if isinstance(n, ast.Attribute) and n.attr == "code_format"] or [10**9])
+    ctx.check("one instruction sequence for both layouts, built before the layout is consulted", len(seqs) == 1 and seqs[0].lineno < first_fmt_line, "single Sequence(...) above the first use of code_format", f"{len(seqs)} constructions; layout first read at line {first_fmt_line}", fn_where(idx, fe))
+    from .c11 import final_return_checks
+
+    final_return_checks(ctx)
+    gm = idx.func("HexagonTransformerExtension.get_meta")
+    ctx.check("attributes do not depend on the layout", "code_format" not in U(gm.node) and "transformer" not in U(gm.node), "get_meta reads only its own flags", "reads transformer state", fn_where(idx, gm))
+    phase_separation(ctx)
 
 
 @rule("R16.2", "C16", "partition: the block layout prints read / exec (non-hybrid) / write (effects + hybrids); the statement layout prints every written effect after its dependencies; both start with the same READ block", min_instances=6)
